@@ -110,7 +110,10 @@ func verifBuildWorld(sim *verifsim.Sim) *verifWorld {
 	w.put("/acts/a2", map[string]any{"type": "Announce", "actor": u("/users/alice"), "object": u("/notes/n3"), "published": "2024-02-01T00:00:00Z"})
 	w.put("/notes/n1", map[string]any{"type": "Note", "name": "n1", "attributedTo": u("/users/alice"), "published": "2024-01-01T00:00:00Z",
 		"content": `<p>first post, see <a href="` + u("/notes/n3") + `">one</a> and <a href="` + u("/missing") + `">two</a></p>`,
-		"replies": map[string]any{"id": u("/notes/n1/replies"), "type": "Collection", "items": []any{u("/notes/n2"), u("/notes/nf")}}})
+		"replies": map[string]any{"id": u("/notes/n1/replies"), "type": "Collection", "items": []any{u("/notes/n2"), u("/notes/nf")}},
+		/* attachments are numbered on from the links of the text: 3 and 4 */
+		"attachment": []any{map[string]any{"type": "Document", "url": u("/files/first.pdf"), "name": "first"}, map[string]any{"type": "Link", "href": u("/files/second.pdf"), "name": "second", "mediaType": "application/pdf"}}})
+	w.name[u("/files/first.pdf")], w.name[u("/files/second.pdf")] = "fo", "fo"
 	w.put("/notes/n2", map[string]any{"type": "Note", "name": "n2", "attributedTo": u("/users/alice"), "published": "2024-01-02T00:00:00Z",
 		"content": "<p>second post</p>", "inReplyTo": u("/notes/n1"),
 		"replies": map[string]any{"id": u("/notes/n2/replies"), "type": "Collection", "items": []any{u("/notes/n3")}}})
@@ -796,7 +799,34 @@ func TestVerifKeys(t *testing.T) {
 			jtp.VerifSetCache(256) /* the page must really be fetched for the gate to hold it */
 			err = v.openGated(target, 50+rng.Intn(60), 5+rng.Intn(40))
 		} else {
+			early := sid%3 == 0 && !v.held
+			if early {
+				jtp.VerifSetCache(256) /* the page must really be fetched: keys arrive while it is */
+			}
 			err = v.s.Subcommand("open", w.h.URL(target))
+			if err == nil && early {
+				/* keys typed while the first page is being fetched are dropped, Escape included; none of them may crash */
+				dropped := false
+				for _, b := range []byte{27, 'j', ':', 27, '1', '\r', 27} {
+					fetching := false
+					if v.s.m.TryLock() {
+						fetching = v.s.mode == loading
+						v.s.m.Unlock()
+					}
+					if !fetching {
+						break
+					}
+					if panicked, what := verifkit.Try(func() { v.s.Update(b) }); panicked {
+						out.Emit(verifkit.M{"ev": "key", "k": "esc", "hooks": []verifkit.M{}, "held": false, "panic": true, "wedged": false, "what": "a key typed while the first page was being fetched: " + what,
+							"obs": verifkit.M{"mode": "panic", "npages": 0, "at": 0, "hl": "none", "centre": "none", "pos": 0, "buflen": 0}, "frames": 0, "unheld": 0, "overlap": 0})
+						dropped = true
+						break
+					}
+				}
+				if dropped {
+					continue
+				}
+			}
 		}
 		if err != nil || !v.settle(8*time.Second) {
 			out.Emit(verifkit.M{"ev": "key", "k": "start", "obs": v.observe(), "hooks": []verifkit.M{}, "held": false, "panic": false, "wedged": true, "frames": v.frames, "unheld": v.unheld, "overlap": v.overlap})
